@@ -6,6 +6,7 @@ import (
 	"fmt"
 	"math"
 	"runtime"
+	"strings"
 
 	"github.com/lyraproj/pcore/px"
 	"github.com/lyraproj/pcore/types"
@@ -620,6 +621,16 @@ func buildPool(c px.Context, cfg *lib.Config, res *lib.Result, rng *lib.Rng) *po
 			p.add(d, "named")
 		}
 	}
+	// types with several internal representations of one parameter, by their construction routes (multirep.go)
+	for _, d := range repFamily(cfg.Thorough()) {
+		if d.hasRoute() {
+			if p.addRouted(d, "multirep-route") == nil && d.K == "Type" && !p.seen[d.String()] {
+				p.res.Count("skipped.route-rejected." + string(d.T.S) + "@" + d.T.R)
+			}
+		} else {
+			p.add(d, "multirep")
+		}
+	}
 	// the same values made by other construction routes (routes.go)
 	for _, d := range routeFamily(append(scalarFamily(), containerFamily()...), cfg.Thorough()) {
 		p.addRouted(d, "route")
@@ -668,6 +679,13 @@ func buildPool(c px.Context, cfg *lib.Config, res *lib.Result, rng *lib.Rng) *po
 			continue
 		}
 		ks := string(k)
+		if strings.HasPrefix(it.family, "multirep") {
+			// the routes of one description have one key: the String with the bytes of the key of one in four is enough
+			if i%4 == 0 {
+				p.add(vStr(ks), "key-as-string")
+			}
+			continue
+		}
 		p.add(vStr(ks), "key-as-string")
 		if i%4 == 0 {
 			p.add(vBinary(ks), "key-as-binary")
